@@ -239,7 +239,7 @@ fn run_v2(ctx: &mut Ctx) {
     let mut combo = 0usize;
     for &cs_octet in cs_octets {
         let cs = 1usize << (cs_octet as usize + 6);
-        let lens = [0usize, 1, cs - 1, cs, cs + 1, 2 * cs - 1, 2 * cs, 2 * cs + 1, 3 * cs, 3 * cs + 5];
+        let lens = [0usize, 1, cs - 1, cs, cs + 1, 2 * cs - 1, 2 * cs, 2 * cs + 1, 3 * cs, 3 * cs + 5, 4 * cs, 6 * cs, 8 * cs + 3, 9 * cs];
         for &n in &lens {
             combo += 1;
             let aead = modes[combo % 3];
@@ -320,7 +320,8 @@ fn run_v2(ctx: &mut Ctx) {
             // chunk drop / duplicate / reorder (chunks of cs+16, final tag last)
             let step = cs + 16;
             let nchunks = (ct.len() - 16).div_ceil(step);
-            if nchunks >= 2 && nchunks <= 4 {
+            // (every transposition of up to ten chunks: equal-sized chunks far apart as well as neighbours)
+            if nchunks >= 2 && nchunks <= 10 {
                 let chunks: Vec<&[u8]> = (0..nchunks).map(|i| &ct[i * step..((i + 1) * step).min(ct.len() - 16)]).collect();
                 let tag = &ct[ct.len() - 16..];
                 let mut perms: Vec<Vec<usize>> = Vec::new();
@@ -538,9 +539,9 @@ fn run_message_tail(ctx: &mut Ctx) {
     let mut rng = ChaCha8Rng::seed_from_u64(ctx.seed ^ 0xC033);
     let pats = [Pattern::ReadToEnd, Pattern::Fixed(7), Pattern::BufRead(64), Pattern::PollOn(64), Pattern::ZeroMix(9)];
     let mut case = 0usize;
-    for &n in &[0usize, 5, 70] {
-        for tail in [vec![(21u8, 0usize)], vec![(21, 10)], vec![(21, 300)], vec![(10, 3), (21, 150)], vec![(21, 70), (21, 70)]] {
-            for v2 in [true, false] {
+    for &n in &[0usize, 5, 56, 70, 120, 184] {
+        for tail in [vec![], vec![(21u8, 0usize)], vec![(21, 10)], vec![(21, 300)], vec![(10, 3), (21, 150)], vec![(21, 70), (21, 70)]] {
+            for (v2, lead) in [(true, false), (true, true), (false, false), (false, true)] {
                 case += 1;
                 let data = gen::random_bytes(&mut rng, n);
                 let mut lit_body = vec![b'b', 0, 0, 0, 0, 0];
@@ -567,6 +568,12 @@ fn run_message_tail(ctx: &mut Ctx) {
                 let sk = || if v2 { PlainSessionKey::V6 { key: key.clone().into() } } else { PlainSessionKey::V3_4 { sym_alg: SymmetricKeyAlgorithm::AES128, key: key.clone().into() } };
                 let site = if v2 { "Message reader, SEIPDv2 container with packets after the literal data" } else { "Message reader, SEIPDv1 container with packets after the literal data" };
                 let shape = format!("n={n} tail={tail:?}");
+                // the same container behind a Marker packet (legal, PGP 5.x wrote it): nothing about the
+                // integrity verdict may depend on it
+                let marker: &[u8] = if lead { b"\xCA\x03PGP" } else { b"" };
+                let seipd_only = msg.clone();
+                let msg = [marker, &seipd_only[..]].concat();
+                let shape = format!("{shape} lead_marker={lead}");
                 let r0 = message_decrypt_pat(&msg, sk(), Pattern::ReadToEnd);
                 if !(r0.1 && r0.0 == data) {
                     // (a reader that refuses this legal shape is not this property's subject)
@@ -574,11 +581,12 @@ fn run_message_tail(ctx: &mut Ctx) {
                     continue;
                 }
                 ctx.stat("message_tail:unmodified_ok");
-                let hdr = msg.len() - crate::props::c17::real_deframe(&msg).1.map(|(b, _)| b.len()).unwrap_or(0);
+                let hdr = msg.len() - crate::props::c17::real_deframe(&seipd_only).1.map(|(b, _)| b.len()).unwrap_or(0);
                 // positions: every octet of the last 120 (the tail chunks, their tags, the final tag / MDC),
                 // a stride over the rest
                 let mut positions: Vec<usize> = (hdr..msg.len()).step_by(if ctx.thorough() { 1 } else { 5 }).collect();
-                positions.extend(msg.len().saturating_sub(120)..msg.len());
+                // (never inside the Marker packet: it is not part of the encrypted container)
+                positions.extend(msg.len().saturating_sub(120).max(hdr)..msg.len());
                 positions.sort_unstable();
                 positions.dedup();
                 for (pi, &j) in positions.iter().enumerate() {
@@ -590,18 +598,47 @@ fn run_message_tail(ctx: &mut Ctx) {
                     ctx.stat("message_tail:bitflip");
                 }
                 // truncation of the container body (re-framed, so that the packet itself is well formed)
-                if let (_, Some((body, _))) = crate::props::c17::real_deframe(&msg) {
+                if let (_, Some((body, _))) = crate::props::c17::real_deframe(&seipd_only) {
+                    let reframe = |b: &[u8]| -> Option<Vec<u8>> {
+                        let f = crate::frame::frame_fixed(true, 18, if b.len() < 192 { 1 } else if b.len() < 8384 { 2 } else { 5 }, b)?;
+                        Some([marker, &f[..]].concat())
+                    };
                     let cuts: Vec<usize> = if v2 { vec![16, 17, 32, 80, 96, 160] } else { vec![1, 2, 20, 22, 23] };
                     for (ci, cut) in cuts.into_iter().enumerate() {
                         if cut >= body.len() {
                             continue;
                         }
-                        let b = &body[..body.len() - cut];
-                        let Some(m) = crate::frame::frame_fixed(true, 18, if b.len() < 192 { 1 } else if b.len() < 8384 { 2 } else { 5 }, b) else { continue };
+                        let Some(m) = reframe(&body[..body.len() - cut]) else { continue };
                         let pat = pats[ci % pats.len()];
                         let r = message_decrypt_pat(&m, sk(), pat);
                         ctx.oracle("modified_never_clean_eof", site, &format!("{shape} pat={pat:?} cut{cut} msg={}", hx(&m)), !r.1, &show(&r));
                         ctx.stat("message_tail:truncate");
+                    }
+                    // octets added INSIDE the container: behind the final tag / MDC, and (v2) the last
+                    // full chunk written twice
+                    let mut grown: Vec<(String, Vec<u8>)> = Vec::new();
+                    for extra in [1usize, 16, 80, 96] {
+                        let mut b = body.clone();
+                        b.extend(gen::random_bytes(&mut rng, extra));
+                        grown.push((format!("append{extra}"), b));
+                    }
+                    if v2 && body.len() >= 36 + 80 + 16 {
+                        let ct = &body[36..];
+                        let full = (ct.len() - 16) / 80;
+                        if full >= 1 {
+                            let last = &ct[(full - 1) * 80..full * 80];
+                            let mut b = body[..36 + full * 80].to_vec();
+                            b.extend_from_slice(last);
+                            b.extend_from_slice(&ct[full * 80..]);
+                            grown.push(("dup_last_full_chunk".to_string(), b));
+                        }
+                    }
+                    for (gi, (what, b)) in grown.iter().enumerate() {
+                        let Some(m) = reframe(b) else { continue };
+                        let pat = pats[gi % pats.len()];
+                        let r = message_decrypt_pat(&m, sk(), pat);
+                        ctx.oracle("modified_never_clean_eof", site, &format!("{shape} pat={pat:?} {what} msg={}", hx(&m)), !r.1, &show(&r));
+                        ctx.stat("message_tail:grow");
                     }
                 }
             }
